@@ -98,6 +98,9 @@ Definition qexp (x : Q) : Q :=
   let y := to_fx (x / (Z.pow 2 k # 1)) in
   sq_n (Z.to_nat k) (of_fx (exp_series 36 0 SH y 0)).
 
+Definition qrint (x : Q) : Q :=
+  if Qle_bool 0 x then (Qfloor (x + (1 # 2)) # 1) else - (Qfloor (- x + (1 # 2)) # 1).
+
 Definition QOps (h mn : Q) : Fops :=
   mkFops Q qadd qsub qmul qdiv qopp (fun z => z # 1) qsqrt qsin qcos qatan2 qasin qexp qabs qpi
-         qleb qltb qeqb qclose h mn.
+         qleb qltb qeqb qclose h mn qrint.
